@@ -129,6 +129,33 @@ def run_modes(run, pack9, data, box, velz, tag, modes):
             pos = None
             if isinstance(p, np.ndarray) or p != 0:
                 run.violation('pack9-output-mode', dict(problem='posout=False did not return 0', ret=repr(p)))
+        elif mode in ('supplied_strided', 'supplied_otherdtype'):
+            bdt = dtype if mode == 'supplied_strided' else (np.float64 if dtype == np.float32 else np.float32)
+            big = np.full((N, 6), 4242.0, dtype=bdt)
+            if mode == 'supplied_strided':
+                po, vo = big[:, :3], big[:, 3:]
+            else:
+                po, vo = np.full((N, 3), 4242.0, dtype=bdt), np.full((N, 3), 4242.0, dtype=bdt)
+            try:
+                np_, nv_ = pack9.unpack_pack9(data, box, velz, float_dtype=dtype, posout=po, velout=vo)
+            except Exception as e:
+                run.count('unusual_supplied_output_rejected')  # a refusal is not a wrong result
+                continue
+            if np_ != npart_ref or nv_ != npart_ref:
+                run.violation('pack9-count', dict(stream=tag, mode=mode, returned=[int(np_), int(nv_)], expected=npart_ref))
+                continue
+            if not ((po[npart_ref:] == 4242.0).all() and (vo[npart_ref:] == 4242.0).all()):
+                run.violation('pack9-canary', dict(stream=tag, mode=mode, problem='wrote beyond the first npart rows of a supplied output'))
+            pos, vel = np.array(po[:npart_ref]), np.array(vo[:npart_ref])
+            if npart_ref and ((pos == 4242.0).all() or (vel == 4242.0).all()):
+                run.violation('pack9-supplied-output-not-filled', dict(stream=tag, mode=mode, dtype=np.dtype(dtype).str))
+                continue
+            # compare at the lower of the two precisions
+            cmp_dtype = np.float32 if (dtype == np.float32 or bdt == np.float32) else np.float64
+            if compare(run, data, box, velz, cmp_dtype, pos, vel, npart_ref, tag, mode):
+                return True
+            run.nt((tag.split(':')[0], np.dtype(dtype).str, mode, tag.split(':')[1] if ':' in tag else ''))
+            continue
         else:  # supplied
             pb = np.full((N + 2 * G, 3), 4242.0, dtype=dtype)
             vb = np.full((N + 2 * G, 3), 4242.0, dtype=dtype)
@@ -148,7 +175,7 @@ def run_modes(run, pack9, data, box, velz, tag, modes):
     return False
 
 
-ALL_MODES = list(itertools.product((np.float64, np.float32), ('alloc', 'pos_only', 'vel_only', 'supplied')))
+ALL_MODES = list(itertools.product((np.float64, np.float32), ('alloc', 'pos_only', 'vel_only', 'supplied', 'supplied_strided', 'supplied_otherdtype')))
 
 
 def check(run):
@@ -175,7 +202,7 @@ def check(run):
                 recs.append(pack_fields(f))
             data = np.concatenate(recs)
             # field-0 values >= 0xFF0 are headers by definition: keep them, they are part of the stream
-            modes = ALL_MODES if (rep == 0 and cpd in (1, 1701)) else [ALL_MODES[int(rng.integers(0, 8))], (np.float64, 'alloc')]
+            modes = ALL_MODES if (rep == 0 and cpd in (1, 1701)) else [ALL_MODES[int(rng.integers(0, len(ALL_MODES)))], (np.float64, 'alloc')]
             if run_modes(run, pack9, data, box, velz, f'fieldsweep:cpd{cpd}', modes):
                 return
     run.sample(dict(family='fieldsweep', header=header_record(1701, 1234, [0, 1700, 850]).tolist(), first_particle=pack_fields(np.array([[0, 1, 2, 3, 4, 5]])).tolist()))
@@ -218,7 +245,7 @@ def check(run):
         if kind == 3 and nseg:
             recs.append(header_record(cpd, 1, [0, 0, 0]))  # header last
         data = np.concatenate(recs) if recs else np.zeros((0, 9), dtype=np.uint8)
-        m = ALL_MODES[k % 8]
+        m = ALL_MODES[k % len(ALL_MODES)]
         if run_modes(run, pack9, data, box, velz, f'interleave{kind}:cpd{cpd}', [m] + ([(np.float64, 'alloc')] if m != (np.float64, 'alloc') else [])):
             return
         if k < 2:
